@@ -9,8 +9,8 @@ open Pretty Typstyle
 
 /-- Why a tree is outside the covered fragment: the kind of an innermost node that is not in it. -/
 partial def fragBlocker (n : ANode) : String :=
-  if inFrag n then "-" else
-  match n.children.find? (fun c => !inFrag c) with
+  if inFrag n || inFragM n then "-" else
+  match n.children.find? (fun c => !(inFrag c || inFragM c)) with
   | some c => fragBlocker c
   | none => n.kind.name
 
